@@ -366,6 +366,13 @@ def case_variants(d: bytes):
 def history_pool(seed):
     dotted = st.tuples(st.lists(st.sampled_from([b"cdn", b"www", b"mail", b"evil-site", b"contoso-updates", b"files"]), min_size=1, max_size=3).map(b".".join), st.sampled_from([b"com", b"org", b"net"])).map(lambda t: b"ping " + t[0] + b"." + t[1] + b" now")
     base = draw_corpus(st.one_of(tie_docs(), tie_docs(), dotted), 8, seed + 17)
+    # percent-escaped URLs (every unreserved mark, reserved characters, letters, in any order and repetition): state kept
+    # between normalisations (a consumed iterator, a table filled on first use) shows as a history-dependent value
+    piece = st.sampled_from([b"%7E", b"%2D", b"%2E", b"%5F", b"%2d", b"%7e", b"%41", b"%20", b"%2F", b"%3A", b"a", b"/", b"-", b"~"])
+    esc = st.tuples(st.sampled_from([b"GET ", b"", b"see "]), st.sampled_from([b"http://example.com/", b"https://cdn.example.org/x/", b"ftp://10.1.2.3/"]), st.lists(piece, min_size=1, max_size=6).map(b"".join), st.sampled_from([b"", b" HTTP/1.1", b" now"])).map(b"".join)
+    for d in draw_corpus(st.one_of(esc, esc, S.documents(heavy=False)), 5, seed + 29):
+        if d not in base:
+            base.append(d)
     pool = []
     for d in base:
         pool.append(case_variants(d))
